@@ -71,6 +71,9 @@ def run(r):
     rep.require(sites >= 5, f"C10-SITE: {sites} _make_output call sites, floor is 5")
     check_validation(r, "C10-VAL")
     rep.floor("C10-VAL", 30)
+    # the requested format reaches _make_output only if every wrapper and engine hands its arguments on
+    from ._nn import check_nn_glue
+    check_nn_glue(r, "C10", ("none", "hamming", "callable"), None, {fq for fq in nn.P.functions if fq.startswith(MOD)})
     check_roles_consistent(r, "C10-BIND")
 
 
